@@ -2720,6 +2720,17 @@ impl VmGreenThread {
             }
         }
         if self.gray_stack.is_empty() {
+            // The roots were scanned when the cycle started, but the program has kept running since
+            // and there is no read barrier: a value moved from the heap onto the stack in the
+            // meantime (e.g. by `pop`) may be unmarked. Mark the roots again and only start
+            // sweeping once that finds nothing new.
+            for v in self.value_stack.iter() {
+                Self::mark(v, &mut self.gray_stack, self.gc_visited);
+            }
+            Self::mark(&self.string_operand1, &mut self.gray_stack, self.gc_visited);
+            Self::mark(&self.string_operand2, &mut self.gray_stack, self.gc_visited);
+        }
+        if self.gray_stack.is_empty() {
             self.gc_state = GcState::Sweeping { index: 0 };
             #[cfg(abra_verif)]
             verif::ev(verif::T_GC, || {
